@@ -21,15 +21,15 @@ const codecRel = "internal/codec"
 // wireTable is the README "Scalar Types" table transcribed once: Go value type
 // handed to the encoder -> required JSON token class.
 var wireTable = map[string]string{
-	"string":  "escaped-string",
-	"bool":    "bare-literal",
-	"int32":   "bare-number",
-	"uint32":  "bare-number",
-	"float32": "bare-number",
-	"float64": "bare-number",
-	"int64":   "quoted-number",
-	"uint64":  "quoted-number",
-	"[]byte":  "escaped-string",
+	"string":                       "escaped-string",
+	"bool":                         "bare-literal",
+	"int32":                        "bare-number",
+	"uint32":                       "bare-number",
+	"float32":                      "bare-number",
+	"float64":                      "bare-number",
+	"int64":                        "quoted-number",
+	"uint64":                       "quoted-number",
+	"[]byte":                       "escaped-string",
 	"*j5types/date_j5t.Date":       "escaped-string",
 	"*j5types/decimal_j5t.Decimal": "escaped-string",
 	"time.Time":                    "escaped-string",
